@@ -8,29 +8,53 @@ import (
 	"time"
 )
 
-// vhConn is the harness connection: writes are captured, reads are served from
-// a script (adversary-chosen or captured from a sender).
+// vhConn is the harness connection. Every Write is captured as one chunk; reads
+// are served from a list of chunks (adversary-chosen, or captured from a sender)
+// as one continuous byte stream. Keeping chunks separate keeps offsets concrete
+// for the solver; the byte-stream semantics are unchanged.
 type vhConn struct {
-	out    []byte
-	in     []byte
-	rpos   int
+	outs   [][]byte
+	in     [][]byte
+	ci     int
+	cpos   int
+	nread  int
 	closed bool
-	writes int
 }
 
 func (c *vhConn) Read(p []byte) (int, error) {
-	n := copy(p, c.in[c.rpos:])
-	if n == 0 && len(p) > 0 {
+	for c.ci < len(c.in) && c.cpos == len(c.in[c.ci]) {
+		c.ci++
+		c.cpos = 0
+	}
+	if c.ci == len(c.in) {
+		if len(p) == 0 {
+			return 0, nil
+		}
 		return 0, io.EOF
 	}
-	c.rpos += n
+	n := copy(p, c.in[c.ci][c.cpos:])
+	c.cpos += n
+	c.nread += n
 	return n, nil
 }
 
 func (c *vhConn) Write(p []byte) (int, error) {
-	c.out = append(c.out, p...)
-	c.writes++
+	q := make([]byte, len(p))
+	copy(q, p)
+	c.outs = append(c.outs, q)
 	return len(p), nil
+}
+
+// feed appends chunks to the read script.
+func (c *vhConn) feed(chunks ...[]byte) { c.in = append(c.in, chunks...) }
+
+// drained reports whether every scripted byte has been consumed.
+func (c *vhConn) drained() bool {
+	for c.ci < len(c.in) && c.cpos == len(c.in[c.ci]) {
+		c.ci++
+		c.cpos = 0
+	}
+	return c.ci == len(c.in)
 }
 
 func (c *vhConn) Close() error                       { c.closed = true; return nil }
